@@ -10,8 +10,8 @@ destination gets no mutating command (so `CreateRootAncestors` is not sent eithe
 theorem C05_dry_readonly (w : Wrap) (sc : Scenario) (hd : sc.dryRun = true) :
     (∀ c ∈ (run w sc).srcTrace, (∃ r, c = .setRoot r) ∨ (∃ f, c = .getEntries f)) ∧
     (∀ c ∈ (run w sc).destTrace, c.mutating = false) := by
-  have A : Allowed sc.dryRun (fun c => (∃ r, c = .setRoot r) ∨ (∃ f, c = .getEntries f)) (fun c => c.mutating = false) :=
-    ⟨fun r => Or.inl ⟨r, rfl⟩, fun f => Or.inr ⟨f, rfl⟩, fun h => by simp [hd] at h, fun _ => rfl, fun _ => rfl, fun _ => rfl,
+  have A : Allowed sc.dryRun (fun c => (∃ r, c = .setRoot r) ∨ (∃ f, c = .getEntries f)) (fun c => c.mutating = false) (fun f => compileFilters w.pre w.post sc.filters = some f) :=
+    ⟨fun r => Or.inl ⟨r, rfl⟩, fun f _ => Or.inr ⟨f, rfl⟩, fun h => by simp [hd] at h, fun _ => rfl, fun _ _ => rfl, fun _ => rfl,
      fun h => by simp [hd] at h⟩
   exact run_ok w sc A
 
